@@ -59,6 +59,7 @@ Fold(evs, k, def, pos, act, stable, poss) ==
            ELSE IF e.res /\ ~Cover(poss[e.p], e.ip) THEN k
            ELSE Fold(evs, k + 1, def, pos, act \ {e.p}, stable, poss)
       [] e.k = "crash" -> k                 \* a goroutine of the run crashed inside the filter
+      [] e.k = "stuck" -> k                 \* calls of the filter stopped returning (deadlock)
       [] e.k = "bulk" ->                    \* ranges added one after the other before anything else runs
            LET S == {e.cs[j] : j \in 1..Len(e.cs)} IN Fold(evs, k + 1, def \cup S, pos \cup S, act, stable, poss)
       [] OTHER -> Fold(evs, k + 1, def, pos, act, stable, poss)
